@@ -15,6 +15,7 @@ from .. import codec, core
 
 MAGIC = bytes.fromhex("37a430ec")
 OFP_CONTENT = b""
+ADV_INFO = {}
 CMODES = [("usingDict", "-"), ("usingCDict", "-"), ("compress2", "load"), ("compress2", "loadref"), ("compress2", "cdict"),
           ("compress2", "cdictref"), ("compress2", "prefix")]
 DMODES = ["usingDict", "ddict", "ddictref", "loaddict", "multiddict"]
@@ -105,6 +106,7 @@ def make_dicts(ctx, rng, mk):
         cl = len(content)
         reps = rng.choice([(1, 4, 8), (1, 1, 1), (cl, cl, cl), (cl, 1, rng.randint(1, cl)), (rng.randint(1, cl), rng.randint(1, cl), rng.randint(1, cl)),
                            (0, 4, 8), (cl + 1, 4, 8), (1, 4, 0)])
+        ADV_INFO["adv%d" % i] = (reps, content)
         lines.append("M adv%d %d %s %s %s %s %d,%d,%d %s" % (i, rng.choice([1, 32768, 77777, 2 ** 31 - 1, 2 ** 32 - 1]), rand_huf(rng),
                                                               rand_norm(rng, 32, 8), rand_norm(rng, 53, 9), rand_norm(rng, 36, 9),
                                                               reps[0], reps[1], reps[2], codec.hx(content)))
@@ -208,6 +210,22 @@ def run(ctx):
                 if rng.random() < 0.3:
                     p["checksum"] = 1
             cases.append(dict(id="c%d" % len(cases), di=i, x=input_for(rng, d, name), entry=ent if ent == "compress2" else "%s:%d" % (ent, level), dictmode=dm, params=p))
+    # inputs that START with a match at exactly the dictionary's k-th repeat offset (first sequence: literal length 0, repeat code):
+    # every decoder-side supply mode must start from the same three offsets the dictionary header carries
+    nrep = 0
+    for i, (name, d) in enumerate(dicts):
+        if name not in ADV_INFO or i not in verdict or not (verdict[i][0] and verdict[i][1]):
+            continue
+        reps, content = ADV_INFO[name]
+        if len(set(reps)) < 3 or min(reps) < 1 or max(reps) > len(content) or nrep >= (12 if ctx.quick else 120):
+            continue
+        for k in (2, 1, 0):
+            r = reps[k]
+            period = content[len(content) - r:]
+            x = (period * (40 // len(period) + 2))[:40] + codec.gen_input(rng, "text", 300)
+            for level in ((19,) if ctx.quick else (13, 16, 19, 22)):
+                nrep += 1
+                cases.append(dict(id="c%d" % len(cases), di=i, x=x, entry="usingDict:%d" % level, dictmode="-", params={"level": level}))
     # far references into the partial-offset-table dictionary after an incompressible (raw) first block
     for i, (name, d) in enumerate(dicts):
         if name != "advOFpartial" or i not in verdict or not (verdict[i][0] and verdict[i][1]):
